@@ -9,7 +9,7 @@ MANIFEST = {
             "canonical projection); the model is tied to the code on every run by evaluating it (vm_compute) against the real "
             "SortOrderedComponents on generated multisets and against invocation logs of processors, runners and loaders "
             "in real App.Run starts and of the loaders at every Initialize of a multi-step history on one Configure "
-            "(c12_resort: sorting a stored result together with later registrations = sorting everything)",
+            "(c12_resort: sorting a stored result together with later registrations = sorting everything); instantiation-aware post-processors next to plain ones, the callbacks around instantiation as sequences of their own",
     "design_ref": "DESIGN.md 5 C12",
     "note": "trusted: Coq kernel + vm_compute; hand-written model of SortOrderedComponents; Go harness and generators; "
             "sort.Slice assumed only to permute (the oracle re-checks sortedness on each output)",
